@@ -4,8 +4,9 @@
   the five instruction forms the library emits.  Import-free.
 -/
 import InjModel.Model.Bytes
+import InjModel.Generated.Consts
 namespace Inj.X86
-open Inj
+open Inj Inj.Generated
 
 /-! ## Encoders (model of `patch_amd64.rs`) -/
 
@@ -14,24 +15,24 @@ open Inj
     else `mov rax, imm64; jmp rax`.  In a debug build the two signed operations panic on
     overflow; in a release build they wrap. -/
 def genBranch (mode : Mode) (ori target : Nat) : Res (List Nat) :=
-  let s : Int := toI64 ori + 5
+  let s : Int := toI64 ori + Consts.x86RelBias
   let d : Int := toI64 target - wrapI64 s
   if mode = Mode.debug ∧ (s ≥ 9223372036854775808 ∨ d < -9223372036854775808 ∨ d ≥ 9223372036854775808) then
     Res.panic "arith-overflow"
   else
     let off := wrapI64 d
     if -2147483648 ≤ off ∧ off ≤ 2147483647 then
-      Res.ok (0xE9 :: le32 (ofInt32 off))
+      Res.ok (Consts.jmpRelOpcode :: le32 (ofInt32 off))
     else
-      Res.ok ([0x48, 0xB8] ++ le64 target ++ [0xFF, 0xE0])
+      Res.ok (Consts.movRaxOpcode ++ le64 target ++ Consts.jmpRaxOpcode)
 
 /-- `generate_will_return_boolean_jit_code`: `mov rax, imm32(value); ret`. -/
 def boolStub (v : Bool) : List Nat :=
-  [0x48, 0xC7, 0xC0, (if v then 1 else 0), 0x00, 0x00, 0x00, 0xC3]
+  Consts.x86BoolStubTemplate.set Consts.x86BoolStubValueIndex (if v then 1 else 0)
 
 /-- JIT_SIZE constants of `replace_function_with_other_function` / `_return_boolean`. -/
-def jitSizeExec : Nat := 12
-def jitSizeBool : Nat := 8
+def jitSizeExec : Nat := Consts.x86JitSizeExec
+def jitSizeBool : Nat := Consts.x86JitSizeBool
 
 /-! ## ISA fragment (independent of the encoders) -/
 
